@@ -44,7 +44,7 @@ func zzQ2() int64 { return 257 }
 //
 //verif:property C02
 //verif:expect-reach end
-//verif:bound abstract prime-order group of order 257 in place of the curve (order 65537 was tried for the thorough tier: a feasibility query comes back unknown after 600 s); d in [1,q-2]; plaintext length 1..2 (quick) / each of {1,2,3,16,31,32,33} (thorough), content symbolic; both orders; SM3 and the KDF arbitrary functions of their inputs (an all-zero keystream at most once per run, so Encrypt's retry loop runs at most twice); nonce bytes symbolic
+//verif:bound abstract prime-order group of order 257 in place of the curve (order 65537 was tried for the thorough tier: a feasibility query comes back unknown after 600 s); d in [1,q-2]; coordinates of 4/4, 32/4 and 4/32 significant bytes; plaintext length 1..2 (quick) / each of {1,2,3,16,31,32,33} (thorough), content symbolic; both orders; SM3 and the KDF arbitrary functions of their inputs (an all-zero keystream at most once per run, so Encrypt's retry loop runs at most twice); nonce bytes symbolic
 //verif:outside the real curve arithmetic (C03); ASN.1 form (reflection-driven encoding/asn1)
 //verif:stub-symbolic github.com/tjfoc/gmsm/sm3.Sm3Sum zzStubSm3Sum02
 //verif:stub-symbolic github.com/tjfoc/gmsm/sm2.kdf zzStubKdf02
@@ -77,7 +77,10 @@ func zzH_c02_roundtrip() {
 		}
 		return
 	}
-	g := zzNewGroup(zzQ2())
+	// shared-point coordinates of equal and of different byte lengths (4/4, 32/4, 4/32), so that
+	// the left-padding of x2 and of y2 to 32 bytes is exercised separately
+	shape := [][2]int{{4, 4}, {32, 4}, {4, 32}}[vChoice("coordBytes", 3)]
+	g := zzNewGroupShape(zzQ2(), shape[0], shape[1])
 	priv, _ := zzKey(g, "d")
 	zzKdfEncrypting = true
 	ct, err := Encrypt(&priv.PublicKey, m, &zzRand{}, mode)
